@@ -22,10 +22,8 @@ import (
 	"github.com/sirupsen/logrus"
 	"golang.org/x/net/context"
 
-	"github.com/cossacklabs/acra/acrablock"
 	"github.com/cossacklabs/acra/cmd/acra-translator/common"
 	"github.com/cossacklabs/acra/decryptor/base"
-	"github.com/cossacklabs/acra/hmac"
 	"github.com/cossacklabs/acra/logging"
 	tokenCommon "github.com/cossacklabs/acra/pseudonymization/common"
 )
@@ -257,28 +255,14 @@ func (service *TranslatorService) EncryptSymSearchable(ctx context.Context, requ
 		logger.Errorln("Empty ClientID")
 		return nil, ErrEmptyClientID
 	}
-	logger.Debugln("Load encryption symmetric key from KeyStore")
-	symKey, err := service.data.Keystorage.GetClientIDSymmetricKey(request.ClientId)
-	if err != nil {
-		logger.WithError(err).Errorln("Can't load symmetric keys")
-		return nil, ErrKeysNotFound
-	}
-
-	logger.Debugln("Load secret key for HMAC from KeyStore")
-	hmacKey, err := service.data.Keystorage.GetHMACSecretKey(request.ClientId)
-	if err != nil {
-		logger.WithError(err).Errorln("Can't load HMAC key")
-		return nil, ErrKeysNotFound
-	}
-	logger.Debugln("Generate HMAC")
-	dataHash := hmac.GenerateHMAC(hmacKey, request.Data)
-	logger.Debugln("Create AcraBlock")
-	acrastruct, err := acrablock.CreateAcraBlock(request.Data, symKey, nil)
+	// same operation as every other entry point: the common service passes already protected
+	// input through unchanged and produces the serialized container
+	response, err := service.service.EncryptSymSearchable(ctx, request.Data, request.ClientId, nil)
 	if err != nil {
 		logger.WithError(err).Errorln("Can't create AcraBlock")
-		return nil, ErrEncryptionFailed
+		return nil, err
 	}
-	return &SearchableSymEncryptionResponse{Hash: dataHash, Acrablock: acrastruct}, nil
+	return &SearchableSymEncryptionResponse{Hash: response.Hash, Acrablock: response.EncryptedData}, nil
 }
 
 // DecryptSymSearchable AcraBlock and verify hash
